@@ -376,6 +376,39 @@ theorem beVal_beBytes (n v : Nat) : beVal (beBytes n v) = v % 256 ^ n := by
     simp only [beBytes, beVal, beBytes_length, ih]
     rw [Nat.mod_pow_succ, Nat.mul_comm, Nat.add_comm]
 
+theorem beVal_lt (l : List Nat) (hl : BytesOk l) : beVal l < 256 ^ l.length := by
+  induction l with
+  | nil => simp [beVal]
+  | cons x xs ih =>
+    have hx : x < 256 := hl x (by simp)
+    have := ih (fun y hy => hl y (by simp [hy]))
+    simp only [beVal, List.length_cons, Nat.pow_succ]
+    have : x * 256 ^ xs.length ≤ 255 * 256 ^ xs.length := Nat.mul_le_mul_right _ (by omega)
+    omega
+
+theorem beBytes_add_mul (n : Nat) : ∀ a c, beBytes n (a * 256 ^ n + c) = beBytes n c := by
+  induction n with
+  | zero => intros; rfl
+  | succ n ih =>
+    intro a c
+    simp only [beBytes]
+    have e : a * 256 ^ (n + 1) = (a * 256) * 256 ^ n := by rw [Nat.pow_succ, Nat.mul_comm (256 ^ n), Nat.mul_assoc]
+    rw [e, ih (a * 256) c]
+    congr 1
+    rw [Nat.add_comm, Nat.add_mul_div_right _ _ (Nat.pow_pos (by decide)), Nat.add_mul_mod_self_right]
+
+theorem beBytes_beVal (l : List Nat) (hl : BytesOk l) : beBytes l.length (beVal l) = l := by
+  induction l with
+  | nil => rfl
+  | cons x xs ih =>
+    have hx : x < 256 := hl x (by simp)
+    have hxs : BytesOk xs := fun y hy => hl y (by simp [hy])
+    have hb := beVal_lt xs hxs
+    simp only [List.length_cons, beBytes, beVal]
+    rw [beBytes_add_mul, ih hxs]
+    congr 1
+    rw [Nat.add_comm, Nat.add_mul_div_right _ _ (Nat.pow_pos (by decide)), Nat.div_eq_of_lt hb]
+    omega
 theorem two_pow_bitsize (len : Nat) : 2 ^ bitsize len = 256 ^ bytesize len := by
   unfold bitsize
   rw [Nat.mul_comm, Nat.pow_mul]
